@@ -94,7 +94,10 @@ def exportable_member(rng, depth, bit=False):
         if r == 0: return A.Flag
         if r == 1: return A.Alias(rng.choice(["Bit", "Nibble", "Octet"]))
         if r == 2: return A.Padding(rng.choice([1, 2, 3]))
-        if r == 3 and rng.random() < 0.5: return A.Bytewise(rng.choice([A.Flag, A.Alias("Int16ub"), A.Alias("Byte")]))
+        if r == 3 and rng.random() < 0.5:
+            isl = A.Bytewise(rng.choice([A.Flag, A.Alias("Int16ub"), A.Alias("Byte"), A.Struct(A.Renamed("x", A.Alias("Byte")), A.Renamed("f", A.Flag))]))
+            # a byte-level island reached through a wrapper that asks its member for a primitive type
+            return isl if rng.random() < 0.6 else A.Array(2, isl)
         return A.BitsInteger(rng.choice([1, 2, 3, 5, 7, 8, 12]))
     r = rng.randrange(30)
     if r < 6: return A.Alias(rng.choice(["Byte", "Int16ub", "Int16ul", "Int32sb", "Int32ul", "Int8sb", "Int64ub", "Int24ub", "Int24sl"]))
@@ -107,7 +110,10 @@ def exportable_member(rng, depth, bit=False):
     if r == 12: return A.PaddedString(rng.choice([3, 5]), rng.choice(["ascii", "utf8"]))
     if r == 13: return A.PascalString(A.Alias(rng.choice(["Byte", "Int16ub"])), "utf8")
     if r == 14: return A.CString(rng.choice(["ascii", "utf8"]))
-    if r == 15: return A.Const(rng.choice([b"MZ", b"\x00\x01\x02"]))
+    if r == 15:
+        # a constant is exported as the bytes its member writes for it (prefix, padding and terminator included)
+        return rng.choice([A.Const(rng.choice([b"MZ", b"\x00\x01\x02"])), A.Const(b"ab", A.Prefixed(A.Alias("Byte"), A.GreedyBytes)),
+                           A.Const(b"abc", A.FixedSized(5, A.GreedyBytes)), A.Const(b"MZ", A.Prefixed(A.Alias("Int16ub"), A.GreedyBytes))])
     if r == 16: return A.Const(7, A.Alias("Int16ub"))
     if r == 17: return A.Padding(rng.choice([1, 2]))
     if r == 18: return A.Padded(rng.choice([3, 4]), A.Alias("Byte"))
@@ -136,10 +142,13 @@ def bit_members(rng):
     total, out, names = 0, [], iter("uvwxyz")
     while True:
         m = exportable_member(rng, 0, True)
-        if m["k"] == "Bytewise" and total % 8:
+        island = m["k"] == "Bytewise" or (m["k"] == "Array" and m["sub"]["k"] == "Bytewise")
+        if island and total % 8:
             continue            # KSY byte types are byte aligned; an unaligned Bytewise island has no KSY spelling
+        def iw(b):
+            return 16 if b["sub"].get("name") == "Int16ub" or b["sub"]["k"] == "Struct" else 8
         w = 1 if m["k"] == "Flag" else {"Bit": 1, "Nibble": 4, "Octet": 8}.get(m.get("name"), None) if m["k"] == "Alias" else \
-            (16 if m["sub"].get("name") == "Int16ub" else 8) if m["k"] == "Bytewise" else V.dec(m["len"]["v"])
+            iw(m) if m["k"] == "Bytewise" else 2 * iw(m["sub"]) if m["k"] == "Array" else V.dec(m["len"]["v"])
         out.append(A.Renamed(next(names), m)); total += w
         if total % 8 == 0 or len(out) >= 5:
             break
